@@ -44,6 +44,7 @@ use crate::{Header, Record};
 /// ```
 pub struct Writer<W> {
     inner: W,
+    buf: Vec<u8>,
 }
 
 impl<W> Writer<W>
@@ -59,7 +60,10 @@ where
     /// let writer = sam::io::Writer::new(Vec::new());
     /// ```
     pub fn new(inner: W) -> Self {
-        Self { inner }
+        Self {
+            inner,
+            buf: Vec::new(),
+        }
     }
 
     /// Returns a reference to the underlying writer.
@@ -139,7 +143,8 @@ where
     /// # Ok::<(), io::Error>(())
     /// ```
     pub fn write_record(&mut self, header: &Header, record: &Record) -> io::Result<()> {
-        write_record(&mut self.inner, header, record)
+        use crate::alignment::io::Write as _;
+        self.write_alignment_record(header, record)
     }
 }
 
@@ -156,7 +161,10 @@ where
         header: &Header,
         record: &dyn crate::alignment::Record,
     ) -> io::Result<()> {
-        write_record(&mut self.inner, header, record)
+        // A record that is rejected part-way must not leave its first columns in the output.
+        self.buf.clear();
+        write_record(&mut self.buf, header, record)?;
+        self.inner.write_all(&self.buf)
     }
 
     fn finish(&mut self, _: &Header) -> io::Result<()> {
